@@ -21,7 +21,7 @@
 from dali.exceptions import DALISequenceError, ProgramShortAddressFailure
 
 from dali.gear.general import *
-from dali.address import Broadcast, Short
+from dali.address import Broadcast, Group, Short
 
 
 class sleep:
@@ -126,7 +126,13 @@ def SetGroups(addr, groups):
             yield RemoveFromGroup(addr, i)
     else:
         # Can't read from multiple devices: must write every group
-        for i in range(0, 16):
+        order = list(range(0, 16))
+        if isinstance(addr, Group) and addr.group not in groups:
+            # Leaving the group we are addressing must come last,
+            # otherwise the remaining commands no longer reach the gear
+            order.remove(addr.group)
+            order.append(addr.group)
+        for i in order:
             if i in groups:
                 yield AddToGroup(addr, i)
             else:
